@@ -553,7 +553,14 @@ func (env *Env) evalIndex(x *EIndex) Val {
 	case *ArrT:
 		k := env.eval(x.I, u.K)
 		k = env.coerce(k, u.K)
-		return Val{T: u.V, C: []string{"(select " + base.C[0] + " " + k.C[0] + ")"}}
+		term := "(select " + base.C[0] + " " + k.C[0] + ")"
+		// values of a sized integer type stored in a ghost map are in the range of that type (int mode has no sorts to say so)
+		if vc.mode == ModeInt && !env.bound {
+			if ni, ok := numOf(u.V); ok && !ni.mathI && !ni.float && ni.bits < 64 {
+				vc.axiomOnce(vc.inRange(term, ni.bits, ni.signed))
+			}
+		}
+		return Val{T: u.V, C: []string{term}}
 	case *types.Basic:
 		if u.Info()&types.IsString != 0 {
 			i := env.coerceIdx(env.eval(x.I, types.Typ[types.Int]))
@@ -1183,7 +1190,7 @@ func (vc *VC) strFromBytes(st *State, elem types.Type, v Val) string {
 	if _, ok := vc.decls["gs.from"]; !ok {
 		vc.declare("gs.from", "(declare-fun gs.from ((Array "+i+" "+bs+") "+i+" "+i+") Str)")
 		vc.axiom("(forall ((a (Array " + i + " " + bs + ")) (o " + i + ") (n " + i + ")) (! (=> " + vc.ile(vc.idx(0), "n") + " (= (gs.len (gs.from a o n)) n)) :pattern ((gs.from a o n))))")
-		vc.axiom("(forall ((a (Array " + i + " " + bs + ")) (o " + i + ") (n " + i + ") (k " + i + ")) (! (=> (and " + vc.ile(vc.idx(0), "k") + " " + vc.ilt("k", "n") + ") (= (gs.at (gs.from a o n) k) (select a " + vc.iadd("o", "k") + "))) :pattern ((gs.at (gs.from a o n) k)) :pattern ((gs.from a o n) (select a " + vc.iadd("o", "k") + "))))")
+		vc.axiom("(forall ((a (Array " + i + " " + bs + ")) (o " + i + ") (n " + i + ") (k " + i + ")) (! (=> (and " + vc.ile(vc.idx(0), "k") + " " + vc.ilt("k", "n") + ") (= (gs.at (gs.from a o n) k) (select a " + vc.eidx("o", "k") + "))) :pattern ((gs.at (gs.from a o n) k)) :pattern ((gs.from a o n) (select a " + vc.eidx("o", "k") + "))))")
 	}
 	arr := vc.elemArray(st, elem, v.C[0])
 	if src, ok := vc.strOfArr[arr]; ok && v.C[1] == vc.idx(0) && v.C[2] == "(gs.len "+src+")" {
